@@ -287,7 +287,16 @@ impl KnownWord {
     #[must_use]
     pub fn sar(self, rhs: Self) -> Self {
         // We need the value to be signed to make it an arithmetic shift
-        let result = self.value_le_signed() >> rhs.value_le();
+        // A shift of 256 or more leaves only copies of the sign bit
+        let result = if rhs.value_le() >= U256::new(256) {
+            if self.value_le_signed() < I256::ZERO {
+                I256::MINUS_ONE
+            } else {
+                I256::ZERO
+            }
+        } else {
+            self.value_le_signed() >> rhs.value_le().as_u32()
+        };
 
         // We are already LE, but need to turn it back into the unsigned internal rep
         KnownWord::from_le_signed(result)
@@ -402,7 +411,12 @@ impl std::ops::Shl<KnownWord> for KnownWord {
 
     /// Computes the left shift of `self` by `rhs`.
     fn shl(self, rhs: KnownWord) -> Self::Output {
-        KnownWord::from_le(self.value_le() << rhs.value_le())
+        // A shift of 256 or more shifts every bit out of the word
+        if rhs.value_le() >= U256::new(256) {
+            KnownWord::zero()
+        } else {
+            KnownWord::from_le(self.value_le() << rhs.value_le().as_u32())
+        }
     }
 }
 
@@ -411,7 +425,12 @@ impl std::ops::Shr<KnownWord> for KnownWord {
 
     /// Computes the unsigned right shift of `self` by `rhs`.
     fn shr(self, rhs: KnownWord) -> Self::Output {
-        KnownWord::from_le(self.value_le() >> rhs.value_le())
+        // A shift of 256 or more shifts every bit out of the word
+        if rhs.value_le() >= U256::new(256) {
+            KnownWord::zero()
+        } else {
+            KnownWord::from_le(self.value_le() >> rhs.value_le().as_u32())
+        }
     }
 }
 
